@@ -136,12 +136,28 @@ pub fn execute<'a, A: Adapter<'a> + 'a>(
     limit: usize,
 ) -> ExecOutcome {
     let mut rows = vec![];
+    // harness protection: rows of nested folds can hold millions of values each (one generated case needed 6 GB for its
+    // 10 000 rows); past this many values in total the case is discarded like one that exhausts the work budget
+    const MAX_OUTPUT_VALUES: usize = 3_000_000;
+    fn weight(v: &FieldValue) -> usize {
+        match v {
+            FieldValue::List(l) => 1 + l.iter().map(weight).sum::<usize>(),
+            _ => 1,
+        }
+    }
+    let mut output_values = 0usize;
+    let mut too_big = false;
     let r = catch(|| {
         match interpret_ir(adapter, iq, args) {
             Err(e) => return Some(format!("{e:?}")),
             Ok(iter) => {
                 for row in iter {
+                    output_values += row.values().map(weight).sum::<usize>();
                     rows.push(row);
+                    if output_values > MAX_OUTPUT_VALUES {
+                        too_big = true;
+                        break;
+                    }
                     if rows.len() >= limit {
                         break;
                     }
@@ -150,6 +166,9 @@ pub fn execute<'a, A: Adapter<'a> + 'a>(
         }
         None
     });
+    if too_big {
+        return ExecOutcome::Budget;
+    }
     match r {
         Ok(None) => ExecOutcome::Rows(rows),
         Ok(Some(e)) => ExecOutcome::ArgError(e),
